@@ -261,6 +261,7 @@ func main() {
 	r.Set("part_set_alphabet_max", alphabetMax)
 	r.Set("merge_checks", merges)
 	r.Set("header_shape_cases", shapeCases)
+	r.Set("observation_NewPartSetFromHeader_total_minus_1", negativeTotal())
 
 	lap("phase B (searches)")
 
